@@ -359,6 +359,19 @@ func (st *Schema) setPK(cols []IndexColumn) bool {
 	return found
 }
 
+// In files with a schema format before 4 the DESC of index and primary key
+// columns has no effect: everything is stored in ascending order.
+func (st *Schema) ignoreDesc() {
+	for i := range st.PK {
+		st.PK[i].SortOrder = sql.Asc
+	}
+	for _, ind := range st.Indexes {
+		for i := range ind.Columns {
+			ind.Columns[i].SortOrder = sql.Asc
+		}
+	}
+}
+
 // Returns the index of the named column, or -1.
 func (st *Schema) Column(name string) int {
 	u := lowerASCII(name)
